@@ -20,7 +20,7 @@ def requested_at(reqs, x):
     return sor(False, *[sand(a <= x, x < b) for a, b in reqs])
 
 
-def harness(ctx, N, M, imm, pmode):
+def harness(ctx, N, M, imm, pmode, script=None):
     w = World(ctx)
     L = ctx.int("L", 1, hdst.LMAX)
     ids = rigs.Ids(2, 2)
@@ -45,7 +45,7 @@ def harness(ctx, N, M, imm, pmode):
     for i in range(N):
         pre_stored = list(stored)
         pre_md, pre_eof = md_seen, eof_seen
-        o = sc.step(["MD", "FDG", "EOF", "TICK"])
+        o = sc.step(script[i] if script else ["MD", "FDG", "EOF", "TICK"])
         hdst.end_if_other_property(ctx, o)
         ev = sc.events[-1]
         inds = [e[0] for e in o.ind]
@@ -118,12 +118,23 @@ def plan(tier):
                               {"N": n, "M": m, "imm": imm, "pmode": pmode}, twin_share=0.02,
                               obligations=["nak_pdu", "deferred_sequence", "metadata_request"]
                               + (["multi_pdu_nak_sequence"] if pmode == "small" else [])))
+    # wide files: many grid segments, fewer degrees of freedom per event (gaps of several segments,
+    # late segments strictly inside a gap, several gaps)
+    mw = 7 if q else 8
+    for imm in (True, False):
+        for name, script in (
+                ("md-first", [["MD"], ["FDG"], ["FDG"], ["FDG", "EOF"], ["FDG", "EOF"], ["EOF", "TICK"]]),
+                ("md-late", [["FDG"], ["FDG"], ["FDG", "EOF"], ["FDG", "EOF", "MD"], ["EOF", "MD"], ["MD", "TICK"]])):
+            n = 5 if q else 6
+            specs.append(Spec(f"wide/{name}/imm={imm}/N={n}/M={mw}", "vf.harness.c06:harness",
+                              {"N": n, "M": mw, "imm": imm, "pmode": "large", "script": script[:n]}, twin_share=0.02,
+                              obligations=["nak_pdu", "deferred_sequence"]))
     return specs
 
 
 BOUNDS = {
-    "quick": "acknowledged mode, grid-segmented file: size S and segment length L symbolic with S <= 3*L; every sequence of N=5 events over {Metadata, segment k (k forked over 0..M-1, so loss = never chosen, duplication = chosen twice, any order), EOF(no error), tick}; immediate and deferred NAK mode; maximum packet length 2048 and symbolic small values admitting 1..3 segment requests per NAK PDU",
-    "thorough": "N=6, M=3 (large P) / M=4 (small P)",
+    "quick": "acknowledged mode, grid-segmented file: size S and segment length L symbolic with S <= 3*L; every sequence of N=5 events over {Metadata, segment k (k forked over 0..M-1, so loss = never chosen, duplication = chosen twice, any order), EOF(no error), tick}; immediate and deferred NAK mode; maximum packet length 2048 and symbolic small values admitting 1..3 segment requests per NAK PDU; plus 'wide' specs with M=7 grid segments (S <= 7*L) and scripted alphabets: Metadata first, three free segments, then segment-or-EOF twice; and Metadata late (after two or three segments / the EOF)",
+    "thorough": "N=6, M=3 (large P) / M=4 (small P); wide specs N=6, M=8",
 }
 OUTSIDE = "non-grid segmentation (C05/C10 territory), more than M segments, sequences longer than N, large-file PDUs"
 FUNCTIONS = ["DestHandler.state_machine", "_lost_segment_handling", "_handle_fd_without_previous_metadata", "_handle_eof_without_previous_metadata",
